@@ -34,6 +34,7 @@ fn gen_cases(stream: &str, seed: u64, tier: &str) -> Vec<Case> {
         "engine" => streams::gen_engine(&mut r, tier, false, "engine"),
         "engine-fault" => streams::gen_engine(&mut r, tier, true, "engine-fault"),
         "selections" => streams::gen_selections(&mut r, tier),
+        "engine-exhaustive" => streams::gen_engine_exhaustive(&mut r, tier),
         "rooms" => streams::gen_rooms(&mut r, tier),
         _ => {
             eprintln!("unknown stream {}", stream);
@@ -50,6 +51,7 @@ fn run_case(stream: &str, data: &Value) -> Vec<common::Line> {
         "roompairs" => streams::run_roompairs(data),
         "engine" | "engine-fault" => streams::run_engine(data),
         "selections" => streams::run_selections(data),
+        "engine-exhaustive" => streams::run_engine_exhaustive(data),
         "rooms" => streams::run_rooms(data),
         _ => {
             eprintln!("unknown stream {}", stream);
